@@ -39,6 +39,37 @@ func namedErrorResults(info *types.Info, ft *ast.FuncType) []types.Object {
 // guardedBy reports whether node n lies (within root) under an `if` whose condition mentions obj,
 // or under an `if` whose condition depends on recover().
 func (p *Prog) guardedBy(info *types.Info, n ast.Node, root ast.Node, obj types.Object) bool {
+	// locals that hold a copy of the current value (`retErr := *retErrPtr`, defined once before n) stand for it
+	copies := map[types.Object]bool{}
+	if root != nil {
+		ast.Inspect(root, func(x ast.Node) bool {
+			as, ok := x.(*ast.AssignStmt)
+			if !ok || as.Tok != token.DEFINE || len(as.Lhs) != 1 || len(as.Rhs) != 1 || as.Pos() > n.Pos() {
+				return true
+			}
+			rhs := ast.Unparen(as.Rhs[0])
+			if se, ok := rhs.(*ast.StarExpr); ok {
+				rhs = ast.Unparen(se.X)
+			}
+			if identObj(info, rhs) == obj {
+				if o := identObj(info, as.Lhs[0]); o != nil {
+					copies[o] = true
+				}
+			}
+			return true
+		})
+	}
+	usesObj := func(info *types.Info, n ast.Node, obj types.Object) bool {
+		if usesObj(info, n, obj) {
+			return true
+		}
+		for c := range copies {
+			if usesObj(info, n, c) {
+				return true
+			}
+		}
+		return false
+	}
 	for cur := p.Parent(n); cur != nil && cur != root; cur = p.Parent(cur) {
 		ifs, ok := cur.(*ast.IfStmt)
 		if !ok {
